@@ -56,9 +56,6 @@ theorem C17_verdict_perm_counterexample :
 
 /- ------------------------------------------------------------------ permuting the definitions -/
 
-theorem isOk_iff (r : LoadResult) : r.isOk = true ↔ ∃ s, r = .ok s := by
-  cases r <;> simp [LoadResult.isOk]
-
 /-- **order independence of the verdict**: if `sd'` is `sd` with its type definitions permuted
     (`DefsPerm`: `definitions` permuted arbitrarily; `extensions`, `directives`, `schema`, `schemaExt`
     unchanged), then `sd'` loads iff `sd` loads.  (The *kind* of failure — error vs panic — and the
